@@ -143,7 +143,7 @@ func (e *env) newObjects() *objects {
 // runC16: one history on one parser and one lexer; after every Parse (and every
 // lexer Reset) the same call is made on fresh objects and must look the same.
 func runC16(g Glue, j *Job, res *JobResult) {
-	e := &env{g: g, full: true}
+	e := &env{g: g, full: true, tokMethods: true}
 	sess := &act.Session{}
 	gsim.SetMain(sess, j.Budget)
 	o := e.newObjects()
